@@ -145,6 +145,33 @@ var entries = map[string]entry{
 	},
 }
 
+// reuseEntries: the document is decoded TWICE into one variable (a Decoder loop meets the same stanza again); the
+// outcome must be the outcome of decoding it once
+var reuseEntries = map[string]entry{
+	"dsc": func(in []byte) (string, string, bool) {
+		d := &control.DSC{Filename: "/x/y.dsc"}
+		if err := control.Unmarshal(d, bytes.NewReader(in)); err != nil {
+			return "error", "", true
+		}
+		if err := control.Unmarshal(d, bytes.NewReader(in)); err != nil {
+			return "error", "", true
+		}
+		f, a := flatDSC(d)
+		return "value", dg([]interface{}{f, a}), true
+	},
+	"changes": func(in []byte) (string, string, bool) {
+		c := &control.Changes{Filename: "/x/y.changes"}
+		if err := control.Unmarshal(c, bytes.NewReader(in)); err != nil {
+			return "error", "", true
+		}
+		if err := control.Unmarshal(c, bytes.NewReader(in)); err != nil {
+			return "error", "", true
+		}
+		f, a := flatChanges(c)
+		return "value", dg([]interface{}{f, a}), true
+	},
+}
+
 func guarded(e entry, in []byte, seconds int) (kind, digest string, nilOnErr bool) {
 	type res struct {
 		k, d string
@@ -325,6 +352,10 @@ func execC18(vec J, out *Writer) {
 		in := []byte(S(vec["input"]))
 		k1, d1, n1 := guarded(entries[name], in, 10)
 		k2, d2, _ := guarded(entries[name], in, 10)
+		// a second decode of the same bytes into the struct that already holds the first result must give the first result
+		if re, ok := reuseEntries[name]; ok && k1 == "value" && k2 == k1 && d2 == d1 {
+			k2, d2, _ = guarded(re, in, 10)
+		}
 		// the same call with the process in another time zone (time.Local swapped): the outcome depends on the input only
 		if k2 == k1 && d2 == d1 {
 			saved := time.Local
